@@ -801,19 +801,16 @@ theorem opFold_P (st st' : St) (args : List Sx) (v : Sx) (h : opFold rec st args
   · have := foldLoop_P rec hr _ (fun s a x v s' hh => hc _ _ _ _ _ hh) _ _ _ _ _ h
     grind [P.refl, P.trans]
 
-theorem opMapa_P (st st' : St) (args : List Sx) (v : Sx) (h : opMapa rec st args = .ok (v, st')) : P st st' := by
+theorem mapaCall_P (fv : Sx) (s s' : St) (kv v : Sx) (h : mapaCall rec fv s kv = .ok (v, s')) : P s s' := by
   have hc := evalClosure_P rec hr
+  unfold mapaCall at h
+  op_tac h
+
+theorem opMapa_P (st st' : St) (args : List Sx) (v : Sx) (h : opMapa rec st args = .ok (v, st')) : P st st' := by
+  have hl := fun fv => mapLoop_P rec hr (mapaCall rec fv) (fun s x v s' hh => mapaCall_P rec hr fv s s' x v hh)
   unfold opMapa at h
-  simp only [bind, Except.bind, pure, Except.pure, St.arr?] at h
-  repeat' (split at h)
-  all_goals try (simp at h; done)
-  all_goals (simp only [Except.ok.injEq, Prod.mk.injEq] at h; obtain ⟨_, hst⟩ := h; subst hst)
-  rename_i hm _
-  have hm' := mapLoop_P rec hr _ (fun s x v s' hh => by
-    split at hh
-    · exact hc _ _ _ _ _ hh
-    · simp at hh) _ _ _ _ hm
-  grind [P.refl, P.trans]
+  simp only [St.arr?] at h
+  op_tac h
 
 theorem arrayBuild_P : ∀ (as : List Sx) (st st' : St) (acc kvs : List (String × Sx)),
     arrayBuild rec st as acc = .ok (kvs, st') → P st st' := by
@@ -931,24 +928,17 @@ theorem opFindG_P (n : Nat) (st st' : St) (args : List Sx) (v : Sx) (h : opFindG
     all_goals (simp only [St.newArr, Except.ok.injEq, Prod.mk.injEq] at hh; obtain ⟨_, hst⟩ := hh; subst hst; exact P.refl _)) _ _ _ _ _ hs
   grind [P.refl, P.trans]
 
+theorem wheneverBody_P (body : List Sx) (s s' : St) (a a' : Sx) (h : wheneverBody rec body s a = .ok (a', s')) : P s s' := by
+  have hl := evalList_P rec hr
+  unfold wheneverBody at h
+  op_tac h
+
 theorem opWhenever_P (n : Nat) (st st' : St) (args : List Sx) (v : Sx) (h : opWhenever n rec st args = .ok (v, st')) : P st st' := by
   have hp := restorePrev_P rec hr
-  have hl := evalList_P rec hr
+  have hs := fun c body => scanLoop_P rec hr c (wheneverBody rec body) (fun s a a' s' hh => wheneverBody_P rec hr body s s' a a' hh)
   unfold opWhenever at h
-  simp only [bind, Except.bind, pure, Except.pure] at h
-  repeat' (split at h)
-  all_goals try (simp at h; done)
-  simp only [Except.ok.injEq, Prod.mk.injEq] at h; obtain ⟨_, hst⟩ := h; subst hst
-  rename_i hs _ _ _ _
-  have hs' := scanLoop_P rec hr _ _ (fun s a a' s' hh => by
-    repeat' (split at hh)
-    all_goals try (simp at hh; done)
-    all_goals (simp only [Except.ok.injEq, Prod.mk.injEq] at hh; obtain ⟨_, hst⟩ := hh; subst hst)
-    all_goals grind [P.refl, P.trans]) _ _ _ _ _ hs
-  grind [P.refl, P.trans]
+  op_tac h
 
-
-/-- `expand` as a `P` step, for a parent that is allocated whenever the state is well formed -/
 theorem expand_P' (parent : Option Nat) (n : Nat) (st st' : St) (e v : Sx)
     (hp : Ok st → ∀ p, parent = some p → p < st.frames.size)
     (h : expand rec parent n st e = .ok (v, st')) : P st st' :=
